@@ -135,6 +135,8 @@ structure SInv {α : Type} (units : List (UnitB α)) : Prop where
   inj : ∀ (id : Nat) (u : UnitB α) (m : SIPrefix → Nat), units[id]? = some u → u.expanded = some m → ∀ p q, m p = m q → p = q
   /-- an expanded unit is not expanded again -/
   flag : ∀ (id : Nat) (u : UnitB α), units[id]? = some u → u.isExpanded = true → u.expandSi = false ∧ u.expanded = none
+  /-- only units marked for expansion record expansions -/
+  parent : ∀ (id : Nat) (u : UnitB α), units[id]? = some u → u.expanded.isSome = true → u.expandSi = true
 
 /-- The invariant, relative to a set `R` of units whose keys are currently taken out of the index. -/
 structure PInv {α : Type} (R : Nat → Prop) (c : Core α) : Prop where
@@ -148,7 +150,7 @@ structure PInv {α : Type} (R : Nat → Prop) (c : Core α) : Prop where
 abbrev Inv {α : Type} (c : Core α) : Prop := PInv (fun _ => False) c
 
 theorem Inv.empty {α : Type} : Inv (α := α) { units := [], index := [] } := by
-  refine ⟨?_, ?_, ⟨?_, ?_, ?_⟩⟩ <;> simp
+  refine ⟨?_, ?_, ⟨?_, ?_, ?_, ?_⟩⟩ <;> simp
 
 /-- no key is shared by two units -/
 theorem Inv.no_shared_key {α : Type} {c : Core α} (h : Inv c) {i j : Nat} {u v : UnitB α} {k : Key}
@@ -194,7 +196,7 @@ theorem addUnit_inv {α : Type} {c : Core α} {u : UnitB α} {r : Core α × Nat
     (hu : u.expanded = none) (hf : u.isExpanded = true → u.expandSi = false) (h : c.addUnit u = .ok r) : Inv r.1 := by
   obtain ⟨_, hunits, hidx⟩ := addUnit_ok h
   obtain ⟨hget, hfresh, _, _, _⟩ := indexAddUnit_ok hidx
-  refine ⟨?_, ?_, ⟨?_, ?_, ?_⟩⟩
+  refine ⟨?_, ?_, ⟨?_, ?_, ?_, ?_⟩⟩
   · intro k id hk
     refine ⟨by simp, ?_⟩
     rw [hget] at hk
@@ -237,6 +239,13 @@ theorem addUnit_inv {α : Type} {c : Core α} {u : UnitB α} {r : Core α × Nat
     · exact hinv.struct.flag id u1 h1 hx
     · split at h1
       · cases h1; exact ⟨hf hx, hu⟩
+      · cases h1
+  · intro id u1 h1 hx
+    rw [hunits, getElem?_append_singleton] at h1
+    split at h1
+    · exact hinv.struct.parent id u1 h1 hx
+    · split at h1
+      · cases h1; rw [hu] at hx; cases hx
       · cases h1
 
 /-! ## Adding layers -/
